@@ -119,6 +119,11 @@ class Scenario:
             # backlogs far beyond the window and the outgoing buffer, but within log retention, so
             # that completeness after the last ack / Ready can be judged
             self.cfg.update(segsize=4096, segcount=10, maxout=r.choice([10, 200, 200]))
+        if self.kind == "group":
+            # one shared group per history, clean members only, within retention: the group
+            # clauses of C17 (at most once, member order, completeness) are all decidable
+            self.cfg.update(maxconn=10, segsize=4096, segcount=10, maxout=r.choice([3, 10, 200]))
+            self.gpath = r.choice(SHARED)
         init = [hx(f) for f in (r.choice([[], [], ["a/b"], ["#", "a/+"]]))]
         c = self.cfg
         self.do("NEW %d %d %d %d %s %d %s" % (c["maxconn"], c["maxout"], c["segsize"], c["segcount"], c["strategy"],
@@ -207,6 +212,9 @@ class Scenario:
         r = self.rng
         n = 1 + r.below(3) if r.chance(1, 3) else 1
         fs = []
+        if self.kind == "group":
+            n = 0
+            fs.append((self.gpath, r.below(3)))
         for _ in range(n):
             pool = (SHARED * 3 if self.kind == "shared" and r.chance(1, 2) else FILTERS) + (SHARED if r.chance(*getattr(self, "p_shared", (1, 3))) else []) + (BAD_FILTERS if hostile and r.chance(1, 4) else [])
             fs.append((r.choice(pool), r.below(3)))
@@ -224,6 +232,8 @@ class Scenario:
         r = self.rng
         pool = sorted(cl.subs_seen) or FILTERS
         fs = [r.choice(pool + FILTERS[:2]) for _ in range(1 + r.below(2))]
+        if self.kind == "group":
+            fs = [self.gpath]
         pkid = cl.next_pkid
         cl.next_pkid = cl.next_pkid % 65535 + 1
         self.push(cl, "UNSUB %d %s" % (pkid, ",".join(hx(p) for p in fs)), ("unsub", pkid, fs))
@@ -334,6 +344,7 @@ class Scenario:
         "shared":   (5, 16, 3, 32, 18, 12, 3, 4, 3, 0),
         "retained": (5, 18, 3, 30, 18, 12, 3, 3, 2, 0),
         "will":     (8, 8, 1, 20, 18, 10, 3, 14, 6, 0),
+        "group":    (3, 10, 2, 34, 20, 14, 4, 3, 2, 0),
     }
 
     def run(self):
@@ -344,11 +355,11 @@ class Scenario:
         wts = self.WEIGHTS[kind]
         total = sum(wts)
         self.p_retain = {"retained": (1, 2)}.get(kind, (1, 4))
-        self.p_will = {"will": (3, 4)}.get(kind, (1, 4))
+        self.p_will = {"will": (3, 4), "group": (0, 1)}.get(kind, (1, 4))
         self.p_shared = {"shared": (2, 3)}.get(kind, (1, 3))
-        self.p_clean = {"session": (1, 5)}.get(kind, (1, 2))
+        self.p_clean = {"session": (1, 5), "group": (1, 1)}.get(kind, (1, 2))
         self.burst = {"window": 150}.get(kind, 40)
-        for _ in range(1 + r.below(3) + (1 if kind in ("shared", "window") else 0)):
+        for _ in range(1 + r.below(3) + (1 if kind in ("shared", "window", "group") else 0)):
             self._fresh_client(hostile)
         steps = 0
         while steps < self.size and not self.dead:
@@ -407,7 +418,7 @@ class Scenario:
             elif act == 8:
                 # reconnect some earlier client id (takeover if it is still alive)
                 old = r.choice(self.clients)
-                ncl = self.connect(name=old.name, clean=r.chance(*self.p_clean) if kind == "session" else r.chance(1, 3))
+                ncl = self.connect(name=old.name, clean=r.chance(*self.p_clean) if kind in ("session", "group") else r.chance(1, 3))
                 self._init_client(ncl)
             else:
                 self._hostile_action(cl)
